@@ -193,9 +193,7 @@ func checkFieldAssignment(
 		return nil
 	}
 
-	if ptr, ok := receiverType.(*types.Pointer); ok {
-		receiverType = ptr.Elem()
-	}
+	receiverType = util.Deref(receiverType)
 
 	named, ok := receiverType.(*types.Named)
 	if !ok {
@@ -247,9 +245,7 @@ func checkIndexAssignment(
 		return nil
 	}
 
-	if ptr, ok := receiverType.(*types.Pointer); ok {
-		receiverType = ptr.Elem()
-	}
+	receiverType = util.Deref(receiverType)
 
 	named, ok := receiverType.(*types.Named)
 	if !ok {
@@ -323,9 +319,7 @@ func checkFieldIncDec(
 		return nil
 	}
 
-	if ptr, ok := receiverType.(*types.Pointer); ok {
-		receiverType = ptr.Elem()
-	}
+	receiverType = util.Deref(receiverType)
 
 	named, ok := receiverType.(*types.Named)
 	if !ok {
@@ -449,9 +443,7 @@ func checkCompoundLHS(
 		return nil
 	}
 
-	if ptr, ok := receiverType.(*types.Pointer); ok {
-		receiverType = ptr.Elem()
-	}
+	receiverType = util.Deref(receiverType)
 
 	named, ok := receiverType.(*types.Named)
 	if !ok {
